@@ -45,6 +45,10 @@ THEOREMS = ["PorepyVerif.C17." + t for t in (
     "coupling_interface_conserves",
     "md_transport_conserves",
     "md_transport_conserves_iter",
+    "transport_conserves_checked",
+    "transport_maximum_principle_checked",
+    "md_transport_conserves_checked",
+    "darcy_flux_divergence_free",
 )]
 LEAN_MODULES = ["PorepyVerif.C17.Props"]
 AUDIT = "PorepyVerif/C17/Audit.lean"
@@ -64,7 +68,10 @@ RULE = ("one grid per case, built by the real code: CartGrid 1/2/3-d, Structured
         "changes; every call is checked. 12% of the cases are MIXED-DIMENSIONAL: a small md-grid from pp.meshing.cart_grid (2-d with one or two "
         "fractures incl. crossing ones with a 0-d intersection, 3-d with one or two fracture planes), random flux on every subdomain, random mortar flux "
         "(20% zeros, mixed / one-signed) on every interface, outer boundary all-Neumann zero data (60%) or random Dirichlet/Neumann, 1-3 explicit md steps; "
-        "15% also call UpwindCoupling.discretize with the grids swapped (ValueError). non-trivial = at least 2 cells and a nonzero flux; distinct = distinct cases")
+        "15% also call UpwindCoupling.discretize with the grids swapped (ValueError). 7% of the cases call Upwind.darcy_flux (constant velocity incl. zero, "
+        "with / without / constant cell apertures) on Cartesian 1-3-d, triangle and fractured grids with computed geometry, 20% of them on a 0-d PointGrid "
+        "(shortcut branch of discretize). Explicit strata (counted in input_distribution.strata): one-cell grids, all-zero flux, flux scaled by 2^+-40, "
+        "zero flux on boundary faces, boundary-condition faces passed permuted with a repeated face, histories. non-trivial = at least 2 cells and a nonzero flux; distinct = distinct cases")
 TRUSTED = [
     "modelled, not verified: scipy.sparse glue (sps.find enumeration order, coo->csr conversion, sps.kron, np.delete, matrix products in "
     "assemble_matrix_rhs), numpy fancy assignment in cell_faces_as_dense (last write wins), np.sign on binary64 (NaN / -0.0 fluxes are not generated)",
@@ -96,7 +103,10 @@ EXPLANATION = ("FULL: model = Upwind.discretize branch for branch over the store
                "value), coupling_interface_conserves (what cc[0,2] takes out of the primary cells cc[1,2] puts into the secondary cells, any mortar flux), "
                "md_transport_conserves(_iter): on any graph of subdomains coupled by interfaces (flattened to global indices) an explicit step with no-flow outer "
                "boundary keeps the total over all subdomains, for ANY subdomain and mortar fluxes. Correspondence on md-grids: all Upwind matrices, all "
-               "UpwindCoupling matrices and assembled blocks, ValueError for swapped dimensions, md steps exactly.")
+               "UpwindCoupling matrices and assembled blocks, ValueError for swapped dimensions, md steps exactly. Every hypothesis of the transport theorems is "
+               "a Boolean the driver evaluates on every case (wfB, consHypB, mpHypB, mdHypB; theorems *_checked: checker = true => conclusion) and is compared "
+               "with an independent numpy/Fraction computation. Upwind.darcy_flux is modelled (normal . (mean aperture * beta)) and proved divergence-free on "
+               "closed cells for constant aperture (darcy_flux_divergence_free), which discharges the divergence-free hypothesis for uniform flow.")
 ASSUMPTIONS = [
     "selection / boundary-row / maximum-principle theorems assume the decidable well-formedness predicate WF (signs +-1, at most one cell on each side of a "
     "face); every grid built by porepy constructors / fracture meshing in the sample satisfies it (the oracle recomputes it from cell_faces.toarray())",
@@ -171,7 +181,7 @@ def _gen_grid_spec(rng, tier):
     big = tier == "thorough"
     r = rng.random()
     if r < 0.14:
-        return {"kind": "cart", "dims": [rng.choice([1, 1, 2, 3, 4, 5, 7] + ([12, 25] if big else []))]}
+        return {"kind": "cart", "dims": [rng.choice([1, 1, 1, 2, 3, 4, 5, 7] + ([12, 25] if big else []))]}
     if r < 0.36:
         return {"kind": "cart", "dims": [rng.randint(1, 6 if big else 4), rng.randint(1, 6 if big else 4)]}
     if r < 0.48:
@@ -297,8 +307,11 @@ def _outflow(fc_cells, F, nc):
 
 
 def gen_case(rng, tier):
-    if rng.random() < 0.12:
+    r0 = rng.random()
+    if r0 < 0.12:
         return _gen_md(rng, tier)
+    if r0 < 0.19:
+        return _gen_darcy(rng, tier)
     spec = _gen_grid_spec(rng, tier)
     g = build_grid(spec)
     nf, nc = g.num_faces, g.num_cells
@@ -387,8 +400,35 @@ def gen_case(rng, tier):
         "dt": frac(dt),
         "nsteps": nsteps,
     }
+    strata = []
+    if nc == 1:
+        strata.append("one-cell-grid")
+    r1 = rng.random()
+    if r1 < 0.05:
+        case["flux"] = ["0"] * nf
+        strata.append("all-zero-flux")
+    elif r1 < 0.12:
+        e = rng.choice([40, -40, 30])  # extreme scale: only the signs matter for the matrices; steps stay exact rationals
+        case["flux"] = [frac(Fraction(x) * Fraction(2) ** e) for x in case["flux"]]
+        if scen in ("divfree", "through"):
+            case["V"] = [frac(Fraction(v) * Fraction(2) ** e) for v in case["V"]]  # keeps dt * outflow <= V
+        strata.append("extreme-scale-flux")
+    if bc is not None and bc["mode"] == "ctor" and len(bc["faces"]) >= 2 and rng.random() < 0.2:
+        # the same assignment given to the BoundaryCondition constructor in permuted order, with a repeated face (last entry wins)
+        idx = list(range(len(bc["faces"])))
+        rng.shuffle(idx)
+        j = rng.choice(idx)
+        idx = [j] + idx
+        conds = [bc["cond"][t] for t in idx]
+        conds[0] = "dir" if bc["cond"][j] != "dir" else "neu"  # overridden by the later entry of the same face
+        case["bc"] = {"mode": "ctor", "faces": [bc["faces"][t] for t in idx], "cond": conds}
+        strata.append("bc-faces-permuted-duplicated")
+    if any(Fraction(x) == 0 for x in case["flux"]) and any(len(fc[f]) == 1 and Fraction(case["flux"][f]) == 0 for f in range(nf)):
+        strata.append("zero-flux-on-boundary-face")
     if rng.random() < 0.45:
         case["stages"] = _gen_stages(rng, case, fc, nf, nc)
+        strata.append("history")
+    case["strata"] = strata
     return case
 
 
@@ -607,6 +647,8 @@ def _run_history(case):
 def impl_run(case):
     if case.get("family") == "md":
         return _md_impl(case)
+    if case.get("family") == "darcy":
+        return _darcy_impl(case)
     g, res = _run_history(case)
     outs = []
     for st, r in res:
@@ -621,6 +663,7 @@ def impl_run(case):
             "neu": _trip(mats[2]),
             "steps": [[frac(v) for v in x] for x in _steps(g, mats, st)],
             "assemble": r[2],
+            "hyp": _hyp_flags(g, st, *_flags(g, st["bc"], _make_bc(g, st["bc"])))[0],
         })
     return outs
 
@@ -630,6 +673,8 @@ def model_ops(case):
     """one stateless model evaluation per discretize call of the history (flags from a FRESH BoundaryCondition built from the stage's recipe)"""
     if case.get("family") == "md":
         return _md_ops(case)
+    if case.get("family") == "darcy":
+        return _darcy_ops(case)
     g = build_grid(case["grid"])
     inc = incidences(g)
     ops = []
@@ -650,6 +695,7 @@ def model_ops(case):
             "V": st["V"],
             "dt": st["dt"],
             "nsteps": st["nsteps"],
+            "bounds": _hyp_flags(g, st, is_dir, is_neu)[1],
         })
     return ops
 
@@ -664,6 +710,8 @@ def _agg(trips):
 def model_decode(outs, case):
     if case.get("family") == "md":
         return _md_decode(outs, case)
+    if case.get("family") == "darcy":
+        return outs[0]
     res = []
     for o in outs:
         if "err" not in o:
@@ -677,7 +725,47 @@ def model_decode(outs, case):
 
 
 def compare(impl, model, case):
+    if case.get("family") == "darcy" and case["grid"]["kind"] in ("tri",):
+        return deep_compare(impl, model, tol=1e-12)  # normals of simplex grids come out of sqrt / division in compute_geometry
     return deep_compare(impl, model)
+
+
+
+def _hyp_flags(g, st, is_dir, is_neu):
+    """The hypotheses of the conservation / maximum-principle theorems decided with numpy + Fractions from cell_faces.toarray(),
+    independently of the Lean checkers consHypB / mpHypB (compared with them on every case), and the bounds [m, M] per component:
+    min / max over the cell values and the data on Dirichlet faces where flux enters."""
+    nf, nc, k = g.num_faces, g.num_cells, st["k"]
+    CF = np.asarray(g.cell_faces.toarray())
+    fc = [[(int(c), int(CF[f, c])) for c in np.nonzero(CF[f])[0]] for f in range(nf)]
+    wf = _well_formed(fc)
+    F = [Fraction(x) for x in st["flux"]]
+    V = [Fraction(v) for v in st["V"]]
+    dt = Fraction(st["dt"])
+    bv = [[Fraction(x) for x in row] for row in st["bv"]]
+    c0 = [[Fraction(x) for x in row] for row in st["c"]]
+    interior = [sum(1 for _, s in l if s > 0) == 1 and sum(1 for _, s in l if s < 0) == 1 for l in fc]
+    has_up = [any(s * F[f] > 0 for _, s in fc[f]) or (F[f] == 0 and any(s > 0 for _, s in fc[f])) for f in range(nf)]  # a cell on the upstream side
+    inflow_dir = [is_dir[f] and not has_up[f] for f in range(nf)]
+    err = [not is_neu[f] and not inflow_dir[f] and not has_up[f] for f in range(nf)]
+    bounds, cons, mp = [], [], []
+    divF = [sum(s * F[f] for f in range(nf) for c, s in fc[f] if c == i) for i in range(nc)]
+    out = _outflow(fc, F, nc)
+    for a in range(k):
+        vals = c0[a] + [bv[a][f] for f in range(nf) if fc[f] and inflow_dir[f] and F[f] != 0 and not is_neu[f]]
+        m, M = (min(vals), max(vals)) if vals else (F0, F0)
+        bounds.append([frac(m), frac(M)])
+        cons.append(bool(wf and all(interior[f] or (is_neu[f] and bv[a][f] == 0) for f in range(nf)) and all(v != 0 for v in V)))
+        ok = wf and dt >= 0 and all(V[i] > 0 and divF[i] == 0 and dt * out[i] <= V[i] and m <= c0[a][i] <= M for i in range(nc))
+        for f in range(nf):
+            if not fc[f]:
+                continue
+            if is_neu[f] and not (F[f] == 0 and bv[a][f] == 0):
+                ok = False
+            if F[f] != 0 and (err[f] or (inflow_dir[f] and not (m <= bv[a][f] <= M))):
+                ok = False
+        mp.append(bool(ok))
+    return {"wf": bool(wf), "cons": cons, "mp": mp}, bounds
 
 
 # ----------------------------------------------------------------------------- the property on the real code
@@ -686,6 +774,8 @@ def oracle(case):
     discretisation (new data dictionary, new Upwind object, new BoundaryCondition) of the inputs current at that call"""
     if case.get("family") == "md":
         return _md_oracle(case)
+    if case.get("family") == "darcy":
+        return _darcy_oracle(case)
     g, res = _run_history(case)
     for n, (st, r) in enumerate(res):
         if n > 0:
@@ -809,14 +899,11 @@ def _oracle_stage(g, case, r):
                     return {"what": f"no-flow boundary ({gk} grid, nf={nf}, nc={nc}, k={k}): total of component {a} changed from {tot0} to {tot} in step {n_ + 1}", "key": "not-conservative"}
     divF = [sum(s * F[f] for f in range(nf) for c, s in fc[f] if c == i) for i in range(nc)]
     out = _outflow(fc, F, nc)
-    hyp = (valid_bc and all(x == 0 for x in divF) and dt >= 0 and all(V[i] > 0 and dt * out[i] <= V[i] for i in range(nc))
-           and all(not is_neu[f] or (F[f] == 0 and all(bv[a][f] == 0 for a in range(k))) for f in range(nf)))
-    if hyp:
-        _CLS["max_principle_noflow_checked" if all(F[f] == 0 for f in range(nf) if not interior[f]) else "max_principle_inflow_checked"] += anyflux
-        inflow_dir = [f for f in range(nf) if not interior[f] and is_dir[f] and fc[f][0][1] * F[f] < 0]
-        for a in range(k):
-            vals = c0[a] + [bv[a][f] for f in inflow_dir]
-            lo, hi = min(vals), max(vals)
+    flags, bnds = _hyp_flags(g, case, is_dir, is_neu)
+    for a in range(k):
+        if flags["mp"][a]:
+            _CLS["max_principle_noflow_checked" if all(F[f] == 0 for f in range(nf) if not interior[f]) else "max_principle_inflow_checked"] += anyflux
+            lo, hi = Fraction(bnds[a][0]), Fraction(bnds[a][1])
             for n_, x in enumerate(xs):
                 for i in range(nc):
                     if not (lo <= x[i * k + a] <= hi):
@@ -827,6 +914,8 @@ def _oracle_stage(g, case, r):
 
 
 def nontrivial(case):
+    if case.get("family") == "darcy":
+        return any(Fraction(x) != 0 for x in case["beta"]) and case["grid"]["kind"] != "point"
     if case.get("family") == "md":
         return any(Fraction(x) != 0 for l_ in case["lam"] for x in l_)
     g = build_grid(case["grid"])
@@ -834,6 +923,10 @@ def nontrivial(case):
 
 
 def shrink_candidates(case):
+    if case.get("family") == "darcy":
+        if case["ap"] is not None:
+            yield dict(case, ap=None)
+        return
     if case.get("family") == "md":
         if case["nsteps"] > 1:
             yield dict(case, nsteps=1)
@@ -858,7 +951,10 @@ def stats(cases, impl_outs):
     from collections import Counter
 
     md = [c for c in cases if c.get("family") == "md"]
-    pairs = [(c, o) for c, o in zip(cases, impl_outs) if c.get("family") != "md"]
+    dar = [c for c in cases if c.get("family") == "darcy"]
+    darcy_stats = {"cases": len(dar), "point_grids": sum(1 for c in dar if c["grid"]["kind"] == "point"), "with_apertures": sum(1 for c in dar if c["ap"] is not None),
+                   "zero_velocity": sum(1 for c in dar if all(Fraction(x) == 0 for x in c["beta"]))}
+    pairs = [(c, o) for c, o in zip(cases, impl_outs) if c.get("family") not in ("md", "darcy")]
     cases, impl_outs = [c for c, _ in pairs], [o for _, o in pairs]
     md_stats = {"cases": len(md), "closed": sum(1 for c in md if c["scenario"] == "md-closed"), "interfaces": sum(len(c["lam"]) for c in md),
                 "mortar_cells": sum(len(l_) for c in md for l_ in c["lam"]),
@@ -879,7 +975,8 @@ def stats(cases, impl_outs):
             "histories": sum(1 for c in cases if c.get("stages")), "discretize_calls": sum(1 + len(c.get("stages", [])) for c in cases),
             "history_changes": dict(Counter(w for c in cases for st in c.get("stages", []) for w in st["what"])),
             "history_bc_how": dict(Counter(st["how_bc"] for c in cases for st in c.get("stages", []))),
-            "mixed_dimensional": md_stats}
+            "mixed_dimensional": md_stats, "darcy_flux_and_point_grids": darcy_stats,
+            "strata": dict(Counter(t for c in cases for t in c.get("strata", [])))}
 
 
 # ============================================================================= mixed-dimensional family
@@ -1080,6 +1177,20 @@ def _md_impl(case):
         if "swap" in rec:
             o["swap"] = rec["swap"]
         out["interfaces"].append(o)
+    cons = True
+    for sd, sp, r in zip(sds, case["sub"], real["sub"]):
+        if sd.num_faces:
+            CF = np.asarray(sd.cell_faces.toarray())
+            for f in range(sd.num_faces):
+                sg = [int(v) for v in CF[f][np.nonzero(CF[f])[0]]]
+                interior = sorted(sg) == [-1, 1]
+                if not (interior or (bool(r["bc"].is_neu[f]) and Fraction(sp["bv"][f]) == 0)) or any(v not in (1, -1) for v in sg):
+                    cons = False
+        if any(Fraction(v) == 0 for v in sp["V"]):
+            cons = False
+    mdh = all(np.count_nonzero(np.asarray(sds[it["h"]].cell_faces.tocsr()[f].toarray())) == 1 for it in intfs for f in it["pf"]) and \
+        all(0 <= c < sds[it["l"]].num_cells for it in intfs for c in it["sc"])
+    out["hyp"] = {"cons": bool(cons), "md": bool(mdh)}
     out["steps"] = [[frac(v) for v in x] for x in _md_steps(case, sds, intfs, info, real)]
     return out
 
@@ -1204,4 +1315,99 @@ def _md_oracle(case):
             tot = sum(a * b for a, b in zip(V, x))
             if tot != tot0:
                 return {"what": f"md-grid {case['grid']} with no-flow outer boundary: total amount over all subdomains changed from {tot0} to {tot} in step {n_ + 1}", "key": "md-not-conservative"}
+    return None
+
+# ============================================================================= Upwind.darcy_flux / 0-d shortcut family
+def _gen_darcy(rng, tier):
+    r = rng.random()
+    if r < 0.2:
+        spec = {"kind": "point"}
+    elif r < 0.3:
+        spec = {"kind": "cart", "dims": [rng.choice([1, 2, 5])]}
+    elif r < 0.6:
+        spec = {"kind": "cart", "dims": [rng.randint(1, 3), rng.randint(1, 3)]}
+    elif r < 0.75:
+        spec = {"kind": "cart", "dims": [rng.randint(1, 2), rng.randint(1, 2), rng.randint(1, 2)]}
+    elif r < 0.9:
+        spec = {"kind": "tri", "dims": [rng.randint(1, 2), rng.randint(1, 2)]}
+    else:
+        spec = {"kind": "frac", "dims": [3, 2], "frac": [[1, 2], [1, 1]]}
+    g = _darcy_grid(spec)
+    beta = [frac(_dy(rng, -4, 4)) for _ in range(3)]
+    if rng.random() < 0.15:
+        beta = ["0", "0", "0"]
+    ap = None if rng.random() < 0.5 else [frac(_dy(rng, 1, 8, (1, 2, 4))) for _ in range(g.num_cells)]
+    if ap is not None and rng.random() < 0.3:
+        ap = [ap[0]] * g.num_cells  # constant aperture: divergence-free again
+    return {"family": "darcy", "scenario": "darcy", "grid": spec, "beta": beta, "ap": ap}
+
+
+def _darcy_grid(spec):
+    import porepy as pp
+    key = "geo" + json.dumps(spec, sort_keys=True)
+    if key not in _GRIDS:
+        if spec["kind"] == "point":
+            g = pp.PointGrid(np.zeros(3))
+        else:
+            g = build_grid(spec)
+        g.compute_geometry()
+        _GRIDS[key] = g
+    return _GRIDS[key]
+
+
+def _darcy_impl(case):
+    import porepy as pp
+    g = _darcy_grid(case["grid"])
+    beta = np.array([float(Fraction(x)) for x in case["beta"]])
+    ap = None if case["ap"] is None else np.array([float(Fraction(x)) for x in case["ap"]])
+    try:
+        fl = pp.Upwind().darcy_flux(g, beta, ap) if not (g.dim == 0 and ap is not None) else pp.Upwind().darcy_flux(g, beta)
+    except Exception as e:
+        return err_kind(e)
+    return {"flux": [frac(v) for v in np.asarray(fl).ravel()]}
+
+
+def _darcy_ops(case):
+    g = _darcy_grid(case["grid"])
+    nf = int(g.num_faces)
+    normals = [[frac(v) for v in g.face_normals[d]] for d in range(3)] if nf else [[], [], []]
+    ap = case["ap"] if g.dim > 0 else None
+    return [{"op": "darcy_flux", "nf": nf, "inc": incidences(g) if nf else [], "normals": normals, "beta": case["beta"], "ap": ap}]
+
+
+def _darcy_oracle(case):
+    """darcy_flux = normal . (mean aperture * beta); divergence-free for a constant velocity and constant aperture;
+    0-d grids: the shortcut branch of discretize (empty matrices of the coded shapes)"""
+    import porepy as pp
+    g = _darcy_grid(case["grid"])
+    out = _darcy_impl(case)
+    if "err" in out:
+        return {"what": f"darcy_flux raised {out['err']}", "key": "darcy-raises"}
+    fl = [Fraction(x) for x in out["flux"]]
+    if len(fl) != g.num_faces:
+        return {"what": f"darcy_flux returned {len(fl)} values for {g.num_faces} faces", "key": "darcy-size"}
+    if g.dim == 0:
+        data = {pp.PARAMETERS: {"transport": {"darcy_flux": np.zeros(0)}}, pp.DISCRETIZATION_MATRICES: {"transport": {}}}
+        up = pp.Upwind()
+        up.discretize(g, data)
+        m = data[pp.DISCRETIZATION_MATRICES]["transport"]
+        sh = [tuple(m[key].shape) for key in (up.upwind_matrix_key, up.bound_transport_dir_matrix_key, up.bound_transport_neu_matrix_key)]
+        if sh != [(0, 1), (0, 0), (0, 0)] or any(m[key].nnz for key in m):
+            return {"what": f"0-d grid: matrices of shapes {sh}", "key": "point-grid-shapes"}
+        return None
+    CF = np.asarray(g.cell_faces.toarray())
+    beta = [Fraction(x) for x in case["beta"]]
+    ap = None if case["ap"] is None else [Fraction(x) for x in case["ap"]]
+    tol = Fraction(1, 10 ** 9)
+    for f in range(g.num_faces):
+        cells = list(np.nonzero(CF[f])[0])
+        a = Fraction(1) if ap is None else sum(ap[c] for c in cells) / len(cells)
+        want = sum(Fraction(float(g.face_normals[d, f])) * a * beta[d] for d in range(3))
+        if abs(fl[f] - want) > tol * max(1, abs(want)):
+            return {"what": f"darcy_flux on face {f} (cells {cells}) = {fl[f]}, expected normal.(aperture*beta) = {want}", "key": "darcy-value"}
+    if ap is None or len(set(ap)) == 1:
+        for i in range(g.num_cells):
+            d = sum(int(CF[f, i]) * fl[f] for f in range(g.num_faces))
+            if abs(d) > tol:
+                return {"what": f"darcy_flux of a constant velocity with constant aperture is not divergence-free in cell {i}: {d}", "key": "darcy-not-divfree"}
     return None
